@@ -36,7 +36,7 @@ def _yield_injection(spec):
     rng = random.Random(seed)
     lock = threading.Lock()
     counter = [0]
-    wanted = ("/pygopherd/", "/shelve.py", "/dbm/")
+    wanted = ("/pygopherd/handlers/", "/pygopherd/gopherentry.py", "/pygopherd/fileext.py", "/shelve.py", "/dbm/")
 
     def on_line(code, lineno):
         fn = code.co_filename
